@@ -101,6 +101,7 @@ type Plan struct {
 	Codec    string         `json:"codec"`
 	Header   string         `json:"header"`
 	ByName   bool           `json:"byname,omitempty"`
+	Mixed    bool           `json:"mixed,omitempty"` // with ByName: disagreeing constructor functions are set as well (the registered names must win on both ends)
 	Plain    bool           `json:"plain,omitempty"` // Listen(network,address,codec) / Dial(network,address,codec) instead of Options
 	Servers  []ServerCfg    `json:"servers"`
 	Conns    []ConnCfg      `json:"conns"`
@@ -291,6 +292,24 @@ func (w *World) options(clientBuf int) *rpc.Options {
 			o.Codec = p.Codec
 		}
 		o.HeaderEncoder = p.Header
+		if p.Mixed {
+			// constructors that disagree with the names: a registered name wins on both ends
+			if p.Codec != "bytes" {
+				if p.Codec == "json" {
+					o.NewCodec = rpc.NewPBCodec
+				} else {
+					o.NewCodec = rpc.NewJSONCodec
+				}
+			}
+			if p.Header != "" {
+				if p.Header == "json" {
+					o.NewHeaderEncoder = rpc.NewCODEEncoder
+				} else {
+					o.NewHeaderEncoder = rpc.NewJSONEncoder
+				}
+			}
+			o.NewSocket = func(*tls.Config) socket.Socket { return nil }
+		}
 	} else {
 		o.NewSocket = func(*tls.Config) socket.Socket { return w.Net.Socket() }
 		switch p.Codec {
